@@ -20,6 +20,7 @@ structure St where
   closed : List Nat := []          -- handles whose channel has been closed, most recent first
   next : Nat := 0                  -- handle of the next connection object (each HTTP poll request makes a new one)
   down : Bool := false             -- the send queue has been closed (server stopping): the loop closes whatever registers
+  log : List (Nat × String) := []  -- every accepted hand-off (channel, body), oldest first: what the clients' streams carry
 deriving Repr, Inhabited
 
 /-- `c.id == conn.id && (c.ch == conn.ch || !match)` inside the group's slice -/
@@ -60,7 +61,11 @@ deriving DecidableEq, Repr, Inhabited
 /-- the connection with channel `hd` gets `b` appended to its stream -/
 def bumpConn (hd : Nat) (b : String) (x : Conn) : Conn := if x.handle == hd then { x with buf := x.buf ++ [b] } else x
 
-def bump (s : St) (hd : Nat) (b : String) : St := { s with conns := s.conns.map (bumpConn hd b) }
+def bump (s : St) (hd : Nat) (b : String) : St := { s with conns := s.conns.map (bumpConn hd b), log := s.log ++ [(hd, b)] }
+
+/-- the client of channel `hd` reads one body off its stream -/
+def readOne (s : St) (hd : Nat) : St :=
+  { s with conns := s.conns.map fun x => if x.handle == hd then { x with buf := x.buf.tail } else x }
 
 /-- `PollWorker.Process` after the address has been decoded -/
 def process (s : St) (notify : Bool) (group id body : String) (pick : Nat) : St × Outcome :=
@@ -83,6 +88,8 @@ inductive Op
   | disconnect (handle : Nat) (group id : String)
   | send (notify : Bool) (group id body : String) (pick : Nat)
   | shutdown
+  /-- the HTTP handler of connection `handle` takes one body off the channel and writes it to its client -/
+  | read (handle : Nat)
 deriving Repr, Inhabited
 
 /-- one iteration of `PollWorker.Start`; once the send queue is closed, every iteration ends by closing all
@@ -96,6 +103,7 @@ def step (s : St) : Op → St
     if s.down then shutdown s' else s'
   | .send n g i b p => if s.down then s else (process s n g i b p).1
   | .shutdown => shutdown { s with down := true }
+  | .read h => readOne s h
 
 /-! ### the address (`mesg.Data`) -/
 
